@@ -414,7 +414,9 @@ class World(object):
                 return True
         return False
 
-    def run_until_connected(self, limit=40):
+    def run_until_connected(self, limit=None):
+        if limit is None:
+            limit = 40 + 4 * self.latency   # three one-way trips
         def ok(w):
             return all(ce.client.connected() for ce in w.clients) and \
                 all(ce.addr in w.ctxt.connections for ce in w.clients)
